@@ -209,7 +209,7 @@ def main():
         "checks": checks,
         "notes": (
             "All checks are static (python ast over /repo/geoh5py, parsed on every run). Rules decide on normalised code (DESIGN.md §11) and are "
-            "tested both ways: 1694 mutants incl. the 267 reportable of 279 red-team seeds (5 rounds; 11 value-level / history-dependent misses and 1 obsolete seed are listed in DESIGN.md §15 / §17) must be reported, 1233 twins incl. 240 kept behaviour-preserving refactorings (4 batches; the one open false alarm of §16, C03-d1, is closed: DESIGN.md §17.1) must stay silent; a vacuity monitor (tools/instances_drift.py) accounts for every drop of evaluated sites under a refactoring (DESIGN.md §14). Every rule set runs under a watchdog (VERIF_WATCHDOG, default 600 s): a non-terminating analysis ends as ANALYSIS-ERROR. "
+            "tested both ways: at least 1698 mutants (1692 counted in DESIGN.md §16.1 plus the increments re-counted in §17.3; self-tests of the other properties also replay their round-5 seeds) incl. the 267 reportable of 279 red-team seeds (5 rounds; 11 value-level / history-dependent misses and 1 obsolete seed are listed in DESIGN.md §15 / §17) must be reported, 1233 twins incl. 240 kept behaviour-preserving refactorings (4 batches; the one open false alarm of §16, C03-d1, is closed: DESIGN.md §17.1) must stay silent; a vacuity monitor (tools/instances_drift.py) accounts for every drop of evaluated sites under a refactoring (DESIGN.md §14). Every rule set runs under a watchdog (VERIF_WATCHDOG, default 600 s): a non-terminating analysis ends as ANALYSIS-ERROR. "
             "Exit 0 = held (KNOWN-FINDING lines for "
             "recorded genuine defects, /verif/known_findings.json), 1 = VIOLATION, 2 = ANALYSIS-ERROR (anchor lost / floor not met). "
             "Repairs of genuine defects in /repo are separate 'fix:' commits: " + "; ".join(commits)
